@@ -345,6 +345,37 @@ theorem C07_split_empty_sep_no_progress (c : Char) (cs : List Char) (h1 : c ≠ 
   rw [this]
   simp
 
+/-- **C07 (empty separator rejected).** Since repo commit 5855035 the type checker refuses
+`split on ""` (it used to be accepted and then hung, see the theorem above). -/
+theorem C07_split_empty_sep_rejected (src dst : Option Expr) :
+    typecheckInline (.split "" src dst) = .typeError "EmptySeparator" := by
+  simp [typecheckInline]
+
+theorem sep_toList_ne_nil (sep : String) (h : sep.isEmpty = false) : sep.toList ≠ [] := by
+  intro e
+  have : sep = "" := by simpa using e
+  subst this
+  simp at h
+
+/-- a `split` that passes the type checker has a non-empty separator, so on every input text the
+loop terminates with a token list (`C07_split_spec` applies): the no-progress branch of the model
+is unreachable from a compiled query -/
+theorem C07_split_compiled_terminates (sep : String) (src dst : Option Expr) (op : RowOp)
+    (h : typecheckInline (.split sep src dst) = .ok op) :
+    op = .split sep src dst ∧ sep.toList ≠ [] ∧
+      ∀ inp : List Char, ∃ toks, Split.split inp sep.toList = some toks := by
+  simp only [typecheckInline] at h
+  split at h
+  · cases h
+  · rename_i hne
+    have hs : sep.toList ≠ [] := sep_toList_ne_nil sep (by simpa using hne)
+    split at h
+    · simp only [Static.ok.injEq] at h
+      refine ⟨h.symm, hs, fun inp => ?_⟩
+      obtain ⟨toks, ht, _⟩ := C07_split_spec inp sep.toList hs
+      exact ⟨toks, ht⟩
+    · cases h
+
 /-- the array `split` stores: `from_string` of every token -/
 def splitValue (toks : List (List Char)) : Value :=
   Value.arr (toks.map (fun t => Value.fromString (String.ofList t)))
